@@ -42,17 +42,27 @@ def main():
     dst = os.path.join(VERIF, "seeded", sid)
     os.makedirs(dst, exist_ok=True)
     seed = os.path.join(wt, "SEED")
-    for fn in ("patch.diff", "seed_demo.rs"):
-        shutil.copy(os.path.join(seed, fn), os.path.join(dst, fn))
-    if os.path.exists(os.path.join(seed, "README.md")):
+    if "--from-filed" not in sys.argv:
+        for fn in ("patch.diff", "seed_demo.rs"):
+            shutil.copy(os.path.join(seed, fn), os.path.join(dst, fn))
+    if "--from-filed" not in sys.argv and os.path.exists(os.path.join(seed, "README.md")):
         shutil.copy(os.path.join(seed, "README.md"), os.path.join(dst, "agent_README.md"))
     meta = {"seed": sid, "property": prop, "needs": needs, "ran": [], "confirmed": False}
     tests_only = "--tests-only" in sys.argv
     checks_only = "--checks-only" in sys.argv
-    if checks_only and os.path.exists(os.path.join(dst, "meta.json")):
-        meta = json.load(open(os.path.join(dst, "meta.json")))
-        if needs:
-            meta["needs"] = needs
+    prev = json.load(open(os.path.join(dst, "meta.json"))) if os.path.exists(os.path.join(dst, "meta.json")) else None
+    if checks_only and prev is not None:
+        meta = prev
+    elif tests_only and prev is not None:
+        for k in ("checks_with_change_applied", "caught_by", "caught_by_own_property"):
+            if k in prev:
+                meta[k] = prev[k]
+    nj = os.path.join(VERIF, "seeded", "needs.json")
+    if not needs and os.path.exists(nj):
+        needs = json.load(open(nj)).get(sid, "")
+    if needs:
+        meta["needs"] = needs
+    meta["breaks"] = "property %s (see properties.jsonl) -- demonstrated by seed_demo.rs, which fails with patch.diff applied and passes without" % prop
 
     if not checks_only:
       scratch = "/tmp/mqs/seed-%s" % sid
